@@ -15,7 +15,7 @@ import (
 
 func init() {
 	Registry["C06"] = Set{
-		Explanation: "Decides structural clauses of registry integrity: G1 every insert into the node's identity tables (names, aliases, events) is a LoadOrStore whose 'already present' edge returns an error without side effects on the table; a plain Store is accepted only for keys minted in the same function from the node's counters (pid from nextID, meta alias from MakeRef); G2 the id counters are modified only by atomic add, a PID carries the untruncated counter, and the tuple of Ref.ID words written by MakeRef is an injective function of the 64-bit counter (bit provenance: every counter bit is copied to some ID bit); G3 unregisterProcess reaches on every path the delete of the pid, of the registered name, of every alias, of every event, the exit of every meta process, the drain of relations targeting each of those identities and the drain of relations held BY the process; G4 remove-by-swap on slices overwrites the found slot with the element that is then dropped; G5 the per-process registered flag is claimed by CAS before the name insert and rolled back when the insert loses, and cleared when the name is removed. Added while probing: G3m at every meta-process teardown site the alias is deleted from the alias table before the Terminate callback; G5 requires a compare-and-swap for a process that is already published. G3o in the process release function every delete of the name, aliases and events precedes the first termination notice; G3 now requires delete and drain each for every element on every path (same loop body or separate complete walks). G3r where a meta process is entered into its owner's table the owner's liveness is looked at again after the insert (insert-then-check against the terminator's mark-dead-then-walk) and on the dead edge the new meta process is pushed an exit message and woken.",
+		Explanation: "Decides structural clauses of registry integrity: G1 every insert into the node's identity tables (names, aliases, events) is a LoadOrStore whose 'already present' edge returns an error without side effects on the table; a plain Store is accepted only for keys minted in the same function from the node's counters (pid from nextID, meta alias from MakeRef); G2 the id counters are modified only by atomic add, a PID carries the untruncated counter, and the tuple of Ref.ID words written by MakeRef is an injective function of the 64-bit counter (bit provenance: every counter bit is copied to some ID bit); G3 unregisterProcess reaches on every path the delete of the pid, of the registered name, of every alias, of every event, the exit of every meta process, the drain of relations targeting each of those identities and the drain of relations held BY the process; G4 remove-by-swap on slices overwrites the found slot with the element that is then dropped; G5 the per-process registered flag is claimed by CAS before the name insert and rolled back when the insert loses, and cleared when the name is removed. Added while probing: G3m at every meta-process teardown site the alias is deleted from the alias table before the Terminate callback; G5 requires a compare-and-swap for a process that is already published. G3o in the process release function every delete of the name, aliases and events precedes the first termination notice; G3 now requires delete and drain each for every element on every path (same loop body or separate complete walks). G3r where a meta process is entered into its owner's table the owner's liveness is looked at again after the insert (insert-then-check against the terminator's mark-dead-then-walk) and on the dead edge the new meta process is pushed an exit message and woken. G7 a process enters an event name / alias into its own list (the list its termination releases) only behind the success edge of the node-level claim of that very identity.",
 		NotDecided: []string{
 			"uniqueness across the 2^64 wrap of the counters",
 			"process listings racing with termination",
@@ -41,6 +41,7 @@ func runC06(p *load.Program, r *core.Report) {
 	c06NameFlag(a, r)
 	c06MetaRelease(a, r)
 	c06MetaRegistration(a, r)
+	ownListInsertAfterClaim(a, r, "C06.G7 own-list-insert-after-claim", "C06.G7", 2, map[string]bool{"events": true, "aliases": true})
 	c06ReleaseOrder(a, r)
 }
 
@@ -1248,4 +1249,115 @@ func c06MetaRegistration(a *Anchors, r *core.Report) {
 			}
 		})
 	}
+}
+
+// ownListInsertAfterClaim: G7 — a process writes an event name / alias into its own list (the list
+// its termination walks to release them) only behind the success edge of the node-level claim of
+// that very identity. An entry recorded for a claim that failed makes the process's termination
+// release an identity that belongs to somebody else (the living owner's event disappears, its
+// subscribers get a spurious termination notice, later publications fail with 'unknown event').
+func ownListInsertAfterClaim(a *Anchors, r *core.Report, rule, rid string, floor int, lists map[string]bool) {
+	r.Floor(rule, floor)
+	for _, f := range funcsOfPkgs(a.P, "node") {
+		if !recvIs(root(f), a.ProcessT) {
+			continue
+		}
+		seq := 0
+		eachInstr(f, func(in ssa.Instruction) {
+			var key ssa.Value
+			list := ""
+			if cc := callCommon(in); cc != nil {
+				if m, ok := syncMapCall(cc); ok && (m == "Store" || m == "LoadOrStore") && len(cc.Args) >= 3 {
+					if own, fl := fieldOwner(cc.Args[0]); own == a.ProcessT && lists[fl] {
+						list, key = fl, stripIface(cc.Args[1])
+					}
+				}
+			}
+			if st, ok := in.(*ssa.Store); ok {
+				if own, fl := fieldOwner(st.Addr); own == a.ProcessT && lists[fl] {
+					// p.list = append(p.list, x): the appended element
+					if c, ok := st.Val.(*ssa.Call); ok {
+						if b, ok := c.Call.Value.(*ssa.Builtin); ok && b.Name() == "append" && len(c.Call.Args) == 2 {
+							list = fl
+							key = appendedElement(c.Call.Args[1])
+						}
+					}
+				}
+			}
+			if list == "" {
+				return
+			}
+			seq++
+			fn := fname(f)
+			k := fmt.Sprintf("%s|%s|%s#%d", rid, fn, list, seq)
+			pos := a.P.Pos(in.Pos())
+			inst := "the identity is entered into the process's own " + list + " list only after the node-level claim of it succeeded"
+			if key == nil {
+				r.Unk(rule, k, fn, pos, inst, "cannot tell which identity is entered")
+				return
+			}
+			ok := false
+			why := "no successful node-level claim of the same identity dominates the insert"
+			eachInstr(f, func(i2 ssa.Instruction) {
+				c, isCall := i2.(*ssa.Call)
+				if !isCall {
+					return
+				}
+				g := staticCallee(c.Common())
+				if g == nil || !recvIs(g, a.NodeT) || errResultIndex(g) < 0 {
+					return
+				}
+				same := false
+				for _, arg := range c.Common().Args {
+					if stripIface(arg) == key || canon(stripIface(arg)) == canon(key) {
+						same = true
+					}
+				}
+				if !same {
+					return
+				}
+				var errv ssa.Value = c
+				if g.Signature.Results().Len() > 1 {
+					errv = tupleExtract(c, errResultIndex(g))
+				}
+				if errv == nil {
+					return
+				}
+				nilE, _ := nilEdgesCell(errv)
+				if len(nilE) > 0 && edgesDominate(nilE, in) {
+					ok = true
+					why = "dominated by the success edge of " + g.Name()
+				}
+			})
+			if ok {
+				r.OK(rule, k, fn, pos, inst, why)
+			} else {
+				r.Bad(rule, k, fn, pos, inst, why+": when the claim fails (the name is taken by another process) the entry stays, and this process's termination releases the other owner's identity")
+			}
+		})
+	}
+}
+
+// appendedElement: the single element appended by append(list, x) (SSA passes a slice built from a
+// one-element array).
+func appendedElement(v ssa.Value) ssa.Value {
+	sl, ok := v.(*ssa.Slice)
+	if !ok {
+		return nil
+	}
+	al, ok := sl.X.(*ssa.Alloc)
+	if !ok || al.Referrers() == nil {
+		return nil
+	}
+	var val ssa.Value
+	for _, rf := range *al.Referrers() {
+		if ia, ok := rf.(*ssa.IndexAddr); ok && ia.Referrers() != nil {
+			for _, r2 := range *ia.Referrers() {
+				if st, ok := r2.(*ssa.Store); ok {
+					val = st.Val
+				}
+			}
+		}
+	}
+	return val
 }
